@@ -2,16 +2,16 @@
 (* C09: generator of interop histories with the observations PyAbs prescribes. *)
 EXTENDS Integers, Sequences, FiniteSets, TLC, Json
 CONSTANTS Names, Slots, MaxId, MaxOps, ArgT,  \* ArgT: argument texts for direct applications
+          IntArgs,                               \* integer arguments of handle calls and Klong calls
           Theme                                  \* "all" | "py" (data and Python callables) | "kg" (Klong functions and handles)
 A == INSTANCE PyAbs
 VARIABLES mon, hist, nid
 Init == mon = A!MonInit(Names, Slots, MaxId) /\ hist = <<>> /\ nid = 0
 Add(e) == mon' = A!Step(mon, e) /\ hist' = Append(hist, e)
 
-Bodies == << <<0, "seven">>, <<1, "inc">>, <<1, "neg">>, <<1, "cnt">>, <<1, "enl">>, <<2, "sub">>, <<2, "right">>, <<2, "pair">>,
+Bodies == << <<0, "seven">>, <<1, "inc">>, <<1, "neg">>, <<1, "cnt">>, <<1, "enl">>, <<1, "viapy">>, <<2, "sub">>, <<2, "right">>, <<2, "pair">>,
              <<2, "negy">>, <<3, "sum3">>, <<3, "third">>, <<3, "xz">> >>
 Kind(n) == mon.store[n].kind
-Ints == {1, 2, 3}
 Atoms == {t \in ArgT : t \notin {"[1 2]"}}
 Tuples(k, S) == [1..k -> S]
 
@@ -38,12 +38,20 @@ Next ==
           \/ ar = 3 /\ \E a \in Tuples(3, ArgT) : CallPy(n, "projm", a)
           \/ ar = 1 /\ ~mon.store[n].rz /\ \E a \in Tuples(3, {"1", "2", "3"}) : CallPy(n, "each", a)
           \/ ar = 2 /\ ~mon.store[n].rz /\ \E k \in {2, 3} : \E a \in Tuples(k, {"1", "2", "3"}) : CallPy(n, "over", a)
-     \/ \E w \in Slots, k \in 0..3 : \E a \in Tuples(k, Ints) :
+     \/ \E w \in Slots, k \in 0..3 : \E a \in Tuples(k, IntArgs) :
           /\ mon.wraps[w] # "" /\ Kind(mon.wraps[w]) = "kg" /\ UNCHANGED nid
-          /\ Add([op |-> "callwrap", w |-> w, args |-> a,
-                  res |-> IF k = mon.store[mon.wraps[w]].ar THEN A!Body(mon.store[mon.wraps[w]].body, a) ELSE "rejected"])
+          /\ LET st == mon.store[mon.wraps[w]]
+                 via == st.body = "viapy" /\ k = 1 IN
+             Add([op |-> "callwrap", w |-> w, args |-> a,
+                  res |-> IF k # st.ar THEN "rejected" ELSE IF via THEN (IF a[1] = 3 THEN "raised" ELSE A!Ret(A!Pf, mon.cnt[A!Pf] + 1))
+                          ELSE A!Body(st.body, a),
+                  log |-> IF via THEN <<[id |-> A!Pf, args |-> <<A!IntT(a[1])>>, klok |-> TRUE]>> ELSE <<>>])
      \/ \E n \in Names : Kind(n) = "kg" /\ UNCHANGED nid /\
-          \E a \in Tuples(mon.store[n].ar, Ints) : Add([op |-> "callkg", n |-> n, args |-> a, res |-> A!Body(mon.store[n].body, a)])
+          \E a \in Tuples(mon.store[n].ar, IntArgs) :
+             LET via == mon.store[n].body = "viapy" IN
+             Add([op |-> "callkg", n |-> n, args |-> a,
+                  res |-> IF via THEN (IF a[1] = 3 THEN "raised" ELSE A!Ret(A!Pf, mon.cnt[A!Pf] + 1)) ELSE A!Body(mon.store[n].body, a),
+                  log |-> IF via THEN <<[id |-> A!Pf, args |-> <<A!IntT(a[1])>>, klok |-> TRUE]>> ELSE <<>>])
 Good == mon.bad = "ok"
 Emit == Len(hist) = MaxOps => PrintT(ToJson(hist))
 =============================================================================
